@@ -396,3 +396,67 @@ def nested_arg_text(run, R="ASM"):
     run.check(n >= 1 and not bad, R, R + "|nested-arg|own-text", f.loc(),
               "a sub-rule argument is recorded with the span and text its own candidate's walker consumed (%d site(s))" % n,
               "match_with_nested_ruledef records a sub-rule candidate with text that is not what that candidate consumed (%s): an asm block substituting the argument would re-assemble another alternative's text" % ("; ".join(bad) or "no nested argument found"))
+
+
+def argument_context_rules(run, R="ASM"):
+    """resolve_instruction_match_inner: the arguments written in the instruction (expressions and nested sub-rule matches) are
+    evaluated in the context of the place where the instruction stands (the EvalContext parameter), never in the context being
+    built for the rule; the rule body is evaluated in one context made by new_deepened(<that parameter>), into which every
+    parameter is bound"""
+    f = run.anchor(R, "asm::resolver::instruction::resolve_instruction_match_inner")
+    if f is None:
+        return
+    ctxp = [i for i in range(1, f.arg_count + 1) if re.search(r"&mut expr::eval::EvalContext", f.local_ty(i) or "")]
+    ok = len(ctxp) == 1
+    why = "%d EvalContext parameters" % len(ctxp)
+    if ok:
+        P = "P%d" % ctxp[0]
+        NEW = "EvalContext::new_deepened(%s)" % P
+        def ctx_arg(t):
+            for a, ty in zip(t["args"], t.get("arg_tys") or []):
+                if "EvalContext" in ty:
+                    return deep(f, a, 5)
+            return None
+        evals = [(bi, t) for bi, t in f.calls() if (t.get("resolved") or t.get("callee") or "").endswith("asm::resolver::eval::eval")]
+        nested = [(bi, t) for bi, t in f.calls() if (t.get("resolved") or t.get("callee") or "").endswith("instruction::resolve_instruction_match")]
+        news = [(bi, t) for bi, t in f.calls() if (t.get("resolved") or t.get("callee") or "").endswith("EvalContext::new_deepened") or (t.get("resolved") or t.get("callee") or "").endswith("EvalContext::new")]
+        body = [(bi, t) for bi, t in evals if ".expr" in deep(f, t["args"][-1], 5) and "Expr{" not in deep(f, t["args"][-1], 5) and ctx_arg(t) == NEW]
+        argev = [(bi, t) for bi, t in evals if (bi, t) not in body]
+        bad = []
+        if len(news) != 1 or deep(f, {"copy": news[0][1]["dest"]}, 4) != NEW:
+            bad.append("the rule's context is not made once by new_deepened(the caller's context) (%d constructions)" % len(news))
+        if len(body) != 1:
+            bad.append("%d evaluation(s) of the rule body in the rule's context" % len(body))
+        for bi, t in argev + nested:
+            if ctx_arg(t) != P:
+                bad.append("%s: an argument is evaluated in `%s`, not in the caller's context" % (f.loc(t["span"]), ctx_arg(t)))
+        if not argev or not nested:
+            bad.append("argument evaluations not found (expr=%d nested=%d)" % (len(argev), len(nested)))
+        sets = [(bi, t) for bi, t in f.calls() if re.search(r"EvalContext::(set_local|set_token_subst)$", t.get("resolved") or t.get("callee") or "")]
+        if len(sets) < 4 or any(deep(f, t["args"][0], 4) != NEW for _, t in sets):
+            bad.append("parameters are not all bound (value and text) into the rule's context")
+        ok = not bad
+        why = "; ".join(bad)
+    run.check(ok, R, R + "|argument-context", f.loc(), "instruction arguments are evaluated where the instruction stands; the rule body in one deeper context holding exactly its parameters",
+              "resolve_instruction_match_inner: %s: names of the enclosing rule's parameters would capture the user's symbols (or the block's locals would be invisible) inside arguments" % why)
+
+
+def new_deepened_rule(run, R="ASM"):
+    """EvalContext::new_deepened hands nothing of the caller's context to the callee but the nesting depth: the new context is
+    EvalContext::new() with recursion_depth = from.recursion_depth + 1 (locals and textual substitutions are bound explicitly by
+    whoever makes the call)"""
+    fs = [g for g in run.prog.real_fns() if re.search(r"EvalContext::new_deepened$", g.id)]
+    if len(fs) != 1:
+        run.violation(R, R + "|new-deepened|anchor", "-", "mechanism not found: EvalContext::new_deepened")
+        return
+    f = fs[0]
+    base = [t for bi, t in f.calls() if re.search(r"EvalContext::new$", t.get("resolved") or t.get("callee") or "")]
+    others = sorted(set((t.get("callee") or "?").rsplit("::", 1)[-1] for bi, t in f.calls() if t not in base))
+    stores = []
+    for bi, si, st in f.stmts():
+        if st["k"] == "assign" and st["place"]["p"]:
+            names = [p_.get("name") for p_ in st["place"]["p"] if isinstance(p_, dict)]
+            stores.append((names, deep(f, st["rv"].get("op"), 4) if st["rv"]["k"] == "use" else st["rv"]["k"]))
+    ok = len(base) == 1 and not others and stores == [(["recursion_depth"], "(P1.recursion_depth Add 1_usize)")] and deep(f, {"copy": {"l": 0, "p": []}}, 3) == "EvalContext::new()"
+    run.check(ok, R, R + "|new-deepened|only-depth", f.loc(), "new_deepened = EvalContext::new() with the depth one more than the caller's, nothing else carried over",
+              "EvalContext::new_deepened carries more than the depth into the new context (field stores %s, calls %s): a parameter text or local of an outer rule would be visible (and preferred) inside an inner rule body or function body" % (stores, others))
